@@ -442,10 +442,14 @@ def main(argv):
             sel += mine
     # helper files (no harnesses of their own) required by the selected harness files
     targets = {path: target for path, target, _ in reg}
-    for path, _ in list(files):
-        for req in REQUIRES.get(path, []):
-            if req not in [f for f, _ in files]:
-                files.append((req, targets[req]))
+    changed = True
+    while changed:  # transitively
+        changed = False
+        for path, _ in list(files):
+            for req in REQUIRES.get(path, []):
+                if req not in [f for f, _ in files]:
+                    files.append((req, targets[req]))
+                    changed = True
     if not [h for h in sel if h.kind != "gate"]:
         print("no harnesses registered for %s/%s" % (prop, tier))
         return 2
